@@ -23,8 +23,17 @@ def cases(pid, seed, tier, n, offset=7_000_000):
     out = []
     # case indices with the right residue: 5*k + sc
     idxs = [5 * k + sc for k in range(n)]
+    def run1(i):
+        return vlib.run_range([binp, "--seed", str(seed)], i, i + 1, engine="LD_PRELOAD interposition", env={"LD_PRELOAD": so}, case_timeout=60)
     def one(i):
-        cs = vlib.run_range([binp, "--seed", str(seed)], i, i + 1, engine="LD_PRELOAD interposition", env={"LD_PRELOAD": so}, case_timeout=60)
+        cs = run1(i)
+        for c in cs:
+            # a "too late" verdict must survive two reruns (these run four at a time next to everything else)
+            if c.verdict == "violated" and vlib.TIMING_SIG.search(c.sig or ""):
+                again = [run1(i), run1(i)]
+                if not all(a and a[0].verdict == "violated" and a[0].sig == c.sig for a in again):
+                    c.detail = f"first run: {c.sig}: {c.detail}; not reproduced when rerun"
+                    c.verdict, c.sig, c.nontrivial = "inconclusive", "timing-violation-not-reproduced-when-rerun-alone", False
         return cs
     from concurrent.futures import ThreadPoolExecutor
     with ThreadPoolExecutor(max_workers=4) as ex:
